@@ -60,14 +60,15 @@ fn run_driver(report: &mut Report, known: &KnownFindings, tier: Tier, driver: &s
         }
     }
     for (signature, (detail, o)) in &first {
-        let v = Violation::new("C13", format!("{}: {}", driver, signature), detail.clone());
+        let (property, bare) = match signature.strip_prefix("C16:") { Some(rest) => ("C16", rest.to_string()), None => ("C13", signature.clone()) };
+        let v = Violation::new(property, format!("{}: {}", driver, bare), detail.clone());
         if let Some(k) = known.matches(&v) { report.known_hit.insert((v.property.clone(), format!("{} [{}]", k.what_fails, k.signature))); continue; }
         // the same plan must fail the same way again before it is believed
         let again = execute(&o.plan);
         let mut v = v;
         if !again.problems.iter().any(|(s, _)| s == signature) { v.detail = format!("{} [replay note: a second execution of the same plan did not reproduce it: {:?}]", v.detail, again.problems); }
         let body = json!({"kind": "driver-plan", "driver": driver, "plan": format!("{:?}", o.plan), "events": o.events, "results": o.results, "io_log": o.io_log, "wire_packet_types_per_connection": o.wire, "signature": signature, "detail": detail});
-        let path = write_replay("C13", &format!("{}-{}", driver, signature), &body);
+        let path = write_replay(property, &format!("{}-{}", driver, bare), &body);
         report.violations.push((v, path));
     }
     report.add_count("evaluations", (plans.len() + 1) as u64);
